@@ -29,7 +29,8 @@ Viol(prop, cond, what) == IF cond THEN TRUE ELSE PrintT("VIOL " \o prop \o " " \
 AuthEq(a, b) == Len(a) = Len(b) /\ \A i \in DOMAIN a : a[i].scheme = b[i].scheme /\ ToS(a[i].scopes) = ToS(b[i].scopes) /\ Len(a[i].scopes) = Len(b[i].scopes) /\ a[i].ok = b[i].ok
 
 CheckRun(ev) ==
-    LET hd  == [alts |-> ev.handler.alts, params |-> ev.handler.params, returnsValue |-> ev.handler.returnsValue, respCheck |-> ev.handler.respCheck]
+    LET hd  == [alts |-> ev.handler.alts, params |-> ev.handler.params, returnsValue |-> ev.handler.returnsValue, respCheck |-> ev.handler.respCheck,
+                enumStrict |-> ev.handler.enumStrict]
         \* the status of a served request is fixed unless the validity of the returned zero value is beyond the specification
         statusFixed == ev.fail \/ ev.handler.respCheck # "unknown"
         exp == RunOf(hd, [toks |-> ev.toks], ev.script, [fail |-> ev.fail, sameErr |-> ev.sameErr, status |-> ev.setStatus, stopAt |-> ev.stopAt])
@@ -47,7 +48,7 @@ CheckRun(ev) ==
              \* user middlewares: exactly the stages the handler machine passes through, in registration order, stopping where scripted
              \* (when the validity of the returned zero value is unknown the onOutput / after stages are not constrained)
              /\ Viol("C03", exp.outcome # "refused" \/ o.panicked \/ o.mw = <<>>, "a user middleware ran although every security alternative was refused")
-             /\ Viol("C12", o.panicked \/ ~statusFixed \/ exp.outcome = "refused" \/ o.mw = exp.mw, "user middlewares invoked differ from the handler machine's stages")
+             /\ Viol("C12", o.panicked \/ ~statusFixed \/ exp.outcome \in {"refused", "open"} \/ o.mw = exp.mw, "user middlewares invoked differ from the handler machine's stages")
              /\ Viol("C12", exp.outcome \notin {"stopped", "rejected-stopped"} \/ o.panicked \/ (o.status = 418 /\ (exp.outcome = "stopped" => ~o.invoked)), "a middleware said stop, yet the handler went on")
 
 CheckCmp(ev) == Viol("C12", \A i, j \in DOMAIN ev.outcomes : ev.outcomes[i] = ev.outcomes[j], "engines disagree")
